@@ -301,7 +301,12 @@ Definition resolve (t : table) (glue : lang -> str) (r : cls) : res resolved :=
 (* ------------------------------------------------------------------ in place
    The same loop the way Python runs it: every object (class or recipe) has
    its mutable fields in a heap; an iteration reads `cls` from the CURRENT
-   heap and writes `self`. *)
+   heap and writes `self`.  Granularity: one cell per object.  That two
+   objects never share one list/set/dict OBJECT (a reference copied instead
+   of the contents: seeded defect C03-2) holds in this model by construction;
+   for the implementation it is what the direct oracle of
+   harness/props/ids_classes.py observes (class objects dumped before and
+   after all recipes were resolved, recipes resolved in several orders). *)
 Inductive oid := OC (n : name) | OR (n : name).
 
 Definition oid_eqb (a b : oid) : bool :=
